@@ -28,10 +28,11 @@ MvnOut == LET d == Len(c.L)
               x == [i \in 1..d |-> mu[i] + ISumM([k \in 1..d |-> c.L[i][k] * c.z[k]])]
               detL == IProdM([i \in 1..d |-> c.L[i][i]])
               q == ISumM([k \in 1..d |-> c.z[k] * c.z[k]]) IN
-          [row |-> 0, kind |-> "MVN", d |-> d, mu |-> mu, sigma |-> sigma, x |-> x, detL |-> detL, q |-> q]
+          [row |-> 0, kind |-> "MVN", d |-> d, L |-> c.L, mu |-> mu, sigma |-> sigma, x |-> x, detL |-> detL, q |-> q]
 Emit == IF IsMvn THEN PrintT(<<"CASE", ToJson(MvnOut)>>) ELSE
         PrintT(<<"CASE", ToJson([row |-> c.i, kind |-> K, p |-> Pp, mean |-> Mean(K, Pp), var |-> Var(K, Pp),
           insupport |-> [j \in 1..Len(Row.pts) |-> InSupport(K, Pp, Norm(Row.pts[j].xn, Row.pts[j].xd))],
+          support |-> SupportBounds(K, Pp), discrete |-> Discrete(K),
           boundary |-> [j \in 1..Len(Row.pts) |-> OnBoundary(K, Pp, Norm(Row.pts[j].xn, Row.pts[j].xd))],
           pmf |-> IF HasExactPmf(K, Pp) THEN [j \in 1..Len(Row.pts) |->
                       LET x == Norm(Row.pts[j].xn, Row.pts[j].xd) IN
